@@ -3,5 +3,5 @@ CONSTANTS
   NMsgs = 4
   MaxReq = 2
   MaxOps = 2
-  Depth = 9
+  Depth = 8
 CONSTRAINT Emit
